@@ -65,6 +65,14 @@ CHECKS = {
    text="Generated sets of concurrent requests (all body shapes) go through ConfigureClient/RoundTrip to a scripted server that checks what arrives (stream ids, pseudo-headers, field multiset minus connection-specific fields, body, END_STREAM) and answers each stream with a generated, tagged response whose header block is cut at arbitrary octets and whose frames are interleaved with other streams'; every caller must get exactly its own response. Exploration only; the client's internal schedules are sampled (lock-step and burst).",
    note="Trusted: scripted server (x/net Framer + reference HPACK), fasthttp containers (cookie merging, URI re-encoding are excluded from the comparison), hook counters.",
    ref="6.2 C02"),
+ "C07": dict(technique="model-based property testing (rapid): the scripted server's flow-control ledger as reference model over generated grant/SETTINGS schedules; client quiescence from hook counters and caller goroutine states",
+   text="Generated concurrent uploads (all request body shapes up to 300000 bytes) are drained under generated schedules of stream/connection WINDOW_UPDATEs and SETTINGS_INITIAL_WINDOW_SIZE / SETTINGS_MAX_FRAME_SIZE changes in both directions; the server-side ledger is the authority (no DATA beyond either window, no frame above the MAX_FRAME_SIZE in force), no upload may sit idle at quiescence with both windows positive, and after generous grants every body arrives exact with END_STREAM once and every caller gets its response. Exploration only; races between the client's read and write loops are sampled, not enumerated.",
+   note="Trusted: the scripted server's ledger; hook counters.",
+   ref="6.2 C07"),
+ "C11": dict(technique="property-based testing (rapid) over GOAWAY positions: invariants over the observed history across all scripted connections (HEADERS count per request tag, RoundTrip results)",
+   text="Generated positions of GOAWAY(last-stream-id, code) relative to 1..5 in-flight requests with partial responses, a possible REFUSED_STREAM, later answers in any order, connection loss, and further requests racing the GOAWAY. Checked per request tag over every connection the client dials: HEADERS at most once unless each earlier copy was disclaimed by its connection; no stream opened after the GOAWAY was seen; disclaimed requests resolved at quiescence and never successful from that connection; retry==true only when the server cannot have processed the request; answered requests at or below last-stream-id succeed exactly; everything resolves exactly once. Exploration only.",
+   note="Trusted: scripted servers' frame logs; the client's quiescence.",
+   ref="6.2 C11"),
 }
 PENDING = {}  # id -> reason, for properties not claimed (yet)
 
